@@ -1,5 +1,7 @@
 import PermutaModel.Lemmas.C16Special
 import PermutaModel.Lemmas.C16Fam
+import PermutaModel.Lemmas.C16Simple
+import PermutaModel.Props.C10
 
 /-!
 # C16 — the "finitely many simples" decision
@@ -10,7 +12,8 @@ Property theorems only.  `Model.C16.*` mirrors `pin_words.py:398-476`, `permset.
 
 Not provable here (Brignall–Ruškuc–Vatter, Schmerl–Trotter) and therefore only *evaluated* by the
 harness against brute-force counts of simple permutations and explicit families (see `PARTIAL`):
-`verdict_matches_simples`.  Invariance of the pin-sequence half under the symmetries and under
+`verdict_matches_simples`.  What *is* proved of it: whenever the special test answers "infinitely many",
+`Av(B)` contains simple permutations of every length `≥ 4` of one parity (`special_false_*`).  Invariance of the pin-sequence half under the symmetries and under
 re-ordering is covered by correspondence only (it needs the semantic theorem of C15).
 -/
 open Model Model.C15 Model.C16 C04L
@@ -234,5 +237,213 @@ theorem special_false_gives_family (B : List NSeq) (hB : ∀ x ∈ B, IsPerm x)
 /-- non-vacuity: the first members of the families are the familiar simple permutations -/
 example : C16Fam.parAlt 2 = [2, 0, 3, 1] ∧ C16Fam.wedge1 2 = [1, 3, 0, 4, 2] ∧
     C16Fam.wedge2 2 = [1, 4, 2, 0, 3] ∧ C16Fam.parAlt 3 = [4, 2, 0, 5, 3, 1] := by decide
+
+/-! ### the explicit families consist of simple permutations -/
+
+/-- `σ` is a simple permutation of the class `Av(B)`: a permutation without proper interval (the
+    interval definition of C10, `Spec.C10.IsSimple`: no `2 ≤ l < n` consecutive positions carrying `l`
+    consecutive values), recognised as such by the model of `Perm.is_simple`, avoiding every element of `B` -/
+def SimpleIn (B : List NSeq) (σ : NSeq) : Prop :=
+  IsPerm σ ∧ Spec.C10.IsSimple σ ∧ isSimple σ = true ∧ ∀ x ∈ B, ¬ Contains σ x
+
+/-- **families_simple, parallel alternations**: for *every* `m` the member `2m-2, …, 2, 0, 2m-1, …, 3, 1`
+    is a permutation of length exactly `2m` without proper interval, and `is_simple` says so
+    (`m ≤ 1`: lengths 0 and 2, trivially simple; `m ≥ 2`: genuine simples of length `≥ 4`) -/
+theorem parAlt_simple (m : Nat) :
+    IsPerm (C16Fam.parAlt m) ∧ (C16Fam.parAlt m).length = 2 * m ∧ Spec.C10.IsSimple (C16Fam.parAlt m) ∧
+      isSimple (C16Fam.parAlt m) = true :=
+  ⟨C16Fam.isPerm_parAlt m, by simp [C16Fam.parAlt], C16Simple.parAlt_simple m,
+    (C10.isSimple_spec _ (C16Fam.isPerm_parAlt m)).mpr (C16Simple.parAlt_simple m)⟩
+
+/-- **families_simple, wedges of the first kind**: for every `m ≥ 2` the member
+    `m-1, m+1, m-2, m+2, …, 0, 2m, m` is a permutation of length exactly `2m+1` without proper interval -/
+theorem wedge1_simple (m : Nat) (hm : 2 ≤ m) :
+    IsPerm (C16Fam.wedge1 m) ∧ (C16Fam.wedge1 m).length = 2 * m + 1 ∧ Spec.C10.IsSimple (C16Fam.wedge1 m) ∧
+      isSimple (C16Fam.wedge1 m) = true :=
+  ⟨C16Fam.isPerm_wedge1 m, by simp [C16Fam.wedge1], C16Simple.wedge1_simple m hm,
+    (C10.isSimple_spec _ (C16Fam.isPerm_wedge1 m)).mpr (C16Simple.wedge1_simple m hm)⟩
+
+/-- **families_simple, wedges of the second kind**: for every `m ≥ 2` the member
+    `1, 3, …, 2m-3, 2m, 2m-2, …, 2, 0, 2m-1` is a permutation of length exactly `2m+1` without proper
+    interval -/
+theorem wedge2_simple (m : Nat) (hm : 2 ≤ m) :
+    IsPerm (C16Fam.wedge2 m) ∧ (C16Fam.wedge2 m).length = 2 * m + 1 ∧ Spec.C10.IsSimple (C16Fam.wedge2 m) ∧
+      isSimple (C16Fam.wedge2 m) = true :=
+  ⟨C16Fam.isPerm_wedge2 m (by omega), by simp [C16Fam.wedge2], C16Simple.wedge2_simple m hm,
+    (C10.isSimple_spec _ (C16Fam.isPerm_wedge2 m (by omega))).mpr (C16Simple.wedge2_simple m hm)⟩
+
+/-- the threshold `m ≥ 2` of the two wedge families is exact: their members with `m = 1` are
+    `021` and `201`, which have a proper interval -/
+theorem wedge_threshold_exact :
+    ¬ Spec.C10.IsSimple (C16Fam.wedge1 1) ∧ ¬ Spec.C10.IsSimple (C16Fam.wedge2 1) := by
+  have h1 : IsPerm (C16Fam.wedge1 1) := C16Fam.isPerm_wedge1 1
+  have h2 : IsPerm (C16Fam.wedge2 1) := C16Fam.isPerm_wedge2 1 (by omega)
+  rw [← C10.isSimple_spec _ h1, ← C10.isSimple_spec _ h2]
+  decide
+
+/-- non-vacuity: the first genuine members, and the verdict of `is_simple` on them -/
+example : C16Fam.parAlt 2 = [2, 0, 3, 1] ∧ C16Fam.wedge1 2 = [1, 3, 0, 4, 2] ∧ C16Fam.wedge2 2 = [1, 4, 2, 0, 3] ∧
+    isSimple [2, 0, 3, 1] = true ∧ isSimple [1, 3, 0, 4, 2] = true ∧ isSimple [1, 4, 2, 0, 3] = true ∧
+    C16Fam.wedge1 1 = [0, 2, 1] ∧ C16Fam.wedge2 1 = [2, 0, 1] := by decide
+
+/-- simplicity (interval definition) is invariant under each of the eight symmetries, and so is the
+    verdict of `is_simple` -/
+theorem simple_act (p : NSeq) (hp : IsPerm p) (g : D8) :
+    (Spec.C10.IsSimple (g.act p) ↔ Spec.C10.IsSimple p) ∧ isSimple (g.act p) = isSimple p := by
+  refine ⟨C16Simple.simple_act_iff hp g, ?_⟩
+  rw [Bool.eq_iff_iff, C10.isSimple_spec _ (isPerm_act hp g), C10.isSimple_spec _ hp]
+  exact C16Simple.simple_act_iff hp g
+example : isSimple ((⟨true, false, true⟩ : D8).act [2, 0, 3, 1]) = true := by decide
+
+/-! ### "infinitely many" from the special test is witnessed by simple permutations of the class -/
+
+/-- **what each family gives.**  If `has_finite_special_simples B` is false then, in one of the eight
+    orientations `g`, one of the three families lies in `Av(B)` with all its members `m ≥ 2`, each of
+    which is a simple permutation of the class: either the parallel alternations (one simple of every
+    even length `2m ≥ 4`), or the wedges of the first kind, or the wedges of the second kind (one
+    simple of every odd length `2m+1 ≥ 5`) -/
+theorem special_false_gives_simple_family (B : List NSeq) (hB : ∀ x ∈ B, IsPerm x)
+    (h : hasFiniteSpecialSimples B = false) :
+    ∃ g : D8,
+      (∀ m, 2 ≤ m → (g.act (C16Fam.parAlt m)).length = 2 * m ∧ SimpleIn B (g.act (C16Fam.parAlt m))) ∨
+      (∀ m, 2 ≤ m → (g.act (C16Fam.wedge1 m)).length = 2 * m + 1 ∧ SimpleIn B (g.act (C16Fam.wedge1 m))) ∨
+      (∀ m, 2 ≤ m → (g.act (C16Fam.wedge2 m)).length = 2 * m + 1 ∧ SimpleIn B (g.act (C16Fam.wedge2 m))) := by
+  obtain ⟨fam, hfam, g, H⟩ := special_false_gives_family B hB h
+  refine ⟨g, ?_⟩
+  have mk : ∀ σ : NSeq, IsPerm σ → Spec.C10.IsSimple σ → (∀ x ∈ B, ¬ Contains (g.act σ) x) →
+      SimpleIn B (g.act σ) := by
+    intro σ hσ hs hav
+    have hs' := (C16Simple.simple_act_iff hσ g).mpr hs
+    exact ⟨isPerm_act hσ g, hs', (C10.isSimple_spec _ (isPerm_act hσ g)).mpr hs', hav⟩
+  simp only [families, List.mem_cons, List.not_mem_nil, or_false] at hfam
+  rcases hfam with rfl | rfl | rfl
+  · refine Or.inl fun m hm => ⟨?_, mk _ (C16Fam.isPerm_parAlt m) (C16Simple.parAlt_simple m) (H m).2.2⟩
+    rw [C16Fam.length_act]; simp [C16Fam.parAlt]
+  · refine Or.inr (Or.inl fun m hm =>
+      ⟨?_, mk _ (C16Fam.isPerm_wedge1 m) (C16Simple.wedge1_simple m hm) (H m).2.2⟩)
+    rw [C16Fam.length_act]; simp [C16Fam.wedge1]
+  · refine Or.inr (Or.inr fun m hm => ⟨?_, ?_⟩)
+    · rw [C16Fam.length_act]; simp [C16Fam.wedge2]
+    · have hav := (H (m - 1)).2.2
+      simp only [show m - 1 + 1 = m by omega] at hav
+      exact mk _ (C16Fam.isPerm_wedge2 m (by omega)) (C16Simple.wedge2_simple m hm) hav
+
+/-- **simples of every length of one parity.**  If the special test says "infinitely many" then there
+    is a parity `r` such that `Av(B)` contains a simple permutation of *every* length `n ≥ 4` with
+    `n ≡ r (mod 2)` (`r = 0` from the parallel alternations, `r = 1` from either kind of wedges) -/
+theorem special_false_simples_one_parity (B : List NSeq) (hB : ∀ x ∈ B, IsPerm x)
+    (h : hasFiniteSpecialSimples B = false) :
+    ∃ r, r ≤ 1 ∧ ∀ n, 4 ≤ n → n % 2 = r → ∃ σ, σ.length = n ∧ SimpleIn B σ := by
+  obtain ⟨g, H | H | H⟩ := special_false_gives_simple_family B hB h
+  · refine ⟨0, by omega, fun n hn hr => ⟨_, ?_, (H (n / 2) (by omega)).2⟩⟩
+    rw [(H (n / 2) (by omega)).1]; omega
+  · refine ⟨1, by omega, fun n hn hr => ⟨_, ?_, (H (n / 2) (by omega)).2⟩⟩
+    rw [(H (n / 2) (by omega)).1]; omega
+  · refine ⟨1, by omega, fun n hn hr => ⟨_, ?_, (H (n / 2) (by omega)).2⟩⟩
+    rw [(H (n / 2) (by omega)).1]; omega
+
+/-- **the statement of the property**: when the special test says "infinitely many", simple
+    permutations of the class exist in at least one of every two consecutive lengths `n`, `n+1`, for
+    all `n ≥ 4` (4 is the length of the shortest simple permutation with a proper interval to exclude:
+    there is none of length 3) -/
+theorem special_false_simples_consecutive (B : List NSeq) (hB : ∀ x ∈ B, IsPerm x)
+    (h : hasFiniteSpecialSimples B = false) (n : Nat) (hn : 4 ≤ n) :
+    ∃ σ, (σ.length = n ∨ σ.length = n + 1) ∧ SimpleIn B σ := by
+  obtain ⟨r, hr, H⟩ := special_false_simples_one_parity B hB h
+  by_cases hp : n % 2 = r
+  · obtain ⟨σ, hl, hs⟩ := H n hn hp
+    exact ⟨σ, Or.inl hl, hs⟩
+  · obtain ⟨σ, hl, hs⟩ := H (n + 1) (by omega) (by omega)
+    exact ⟨σ, Or.inr hl, hs⟩
+
+/-- … in particular the class has simple permutations beyond every length bound, i.e. infinitely many:
+    the verdict "infinitely many simples" of `has_finite_simples` (for every flag combination) is
+    *correct* whenever it is caused by the special test -/
+theorem special_false_simples_unbounded (B : List NSeq) (hB : ∀ x ∈ B, IsPerm x)
+    (h : hasFiniteSpecialSimples B = false) (L : Nat) :
+    ∃ σ, L ≤ σ.length ∧ 4 ≤ σ.length ∧ SimpleIn B σ := by
+  obtain ⟨σ, hl, hs⟩ := special_false_simples_consecutive B hB h (max L 4) (by omega)
+  exact ⟨σ, by omega, by omega, hs⟩
+
+/-- the same, read off the verdict of `has_finite_simples` itself: if it answers "infinitely many"
+    although the pin-sequence half answers "finitely many", the class has simples beyond every bound -/
+theorem verdict_false_by_special_correct (B : List NSeq) (hB : ∀ x ∈ B, IsPerm x) (useDb checkAll : Bool)
+    (dfa : Option DFA) (hv : hasFiniteSimples B useDb checkAll dfa = false)
+    (hpin : hasFinitePinpermsWith B useDb dfa = true) (L : Nat) :
+    ∃ σ, L ≤ σ.length ∧ 4 ≤ σ.length ∧ SimpleIn B σ := by
+  apply special_false_simples_unbounded B hB
+  cases hs : hasFiniteSpecialSimples B with
+  | false => rfl
+  | true =>
+    have := (hasFiniteSimples_iff B useDb checkAll dfa).mpr ⟨hs, hpin⟩
+    rw [hv] at this; exact absurd this (by decide)
+
+/-- … and off the verdict of `Av(B).has_finitely_many_simples()`: if the class method answers `False`
+    while the pin-sequence half on the normalised basis answers "finitely many", then the class
+    `Av(basisOf B)` really has simple permutations beyond every length bound -/
+theorem av_false_by_special_correct (B : List NSeq) (hB : ∀ x ∈ B, IsPerm x) (poly : Bool)
+    (hv : avHasFinitelyManySimples B poly = .ok false)
+    (hpin : hasFinitePinperms (basisOf B) = true) (L : Nat) :
+    ∃ σ, L ≤ σ.length ∧ 4 ≤ σ.length ∧ SimpleIn (basisOf B) σ := by
+  have hB' : ∀ x ∈ basisOf B, IsPerm x := fun x hx => hB x (C16Simple.basisOf_subset B x hx)
+  apply special_false_simples_unbounded (basisOf B) hB'
+  rw [av_verdict] at hv
+  split at hv
+  · cases hv
+  · injection hv with hv
+    rw [hpin, Bool.and_true] at hv
+    cases hs : hasFiniteSpecialSimples (basisOf B) with
+    | false => rfl
+    | true => rw [hs] at hv; simp at hv
+/-- the hypothesis on `B` transfers to the normalised basis (`Basis(*patts)` only keeps given patterns);
+    the combination `verdict = False ∧ pin half = True` is exercised by the harness streams -/
+example (B : List NSeq) (hB : ∀ x ∈ B, IsPerm x) : ∀ x ∈ basisOf B, IsPerm x :=
+  fun x hx => hB x (C16Simple.basisOf_subset B x hx)
+
+/-- non-vacuity: for `Av(012)` the special test fails (the class of parallel alternations lies inside),
+    so the theorems above apply and give e.g. a simple 012-avoider of length 10 or 11 -/
+example : ∃ σ, (σ.length = 10 ∨ σ.length = 11) ∧ SimpleIn [[0, 1, 2]] σ := by
+  have hB : ∀ x ∈ [[0, 1, 2]], IsPerm x := by decide
+  refine special_false_simples_consecutive _ hB ?_ 10 (by omega)
+  refine (not_special_iff_subclass _ hB).mpr ⟨Generated.c16_altBasis, by simp [tables], D8.one, ?_⟩
+  intro σ _ hav x hx
+  simp only [List.mem_singleton] at hx
+  subst hx
+  exact hav [0, 1, 2] (by decide)
+
+/-! ### the symmetries and the class, lifted to `has_finite_simples` -/
+
+/-- **invariance of the whole verdict under the eight symmetries, relative to the pin half**: under
+    the explicit hypothesis `hpin` that the pin-sequence test gives the same answer for `g·B` and `B`
+    (not proved here – it needs the semantic theorem of C15; covered by correspondence), every flag
+    combination of `has_finite_simples` gives the same answer for `g·B` and `B` -/
+theorem hasFiniteSimples_act (B : List NSeq) (hB : ∀ x ∈ B, IsPerm x) (g : D8) (useDb checkAll : Bool)
+    (dfa : Option DFA)
+    (hpin : hasFinitePinpermsWith (B.map g.act) useDb dfa = hasFinitePinpermsWith B useDb dfa) :
+    hasFiniteSimples (B.map g.act) useDb checkAll dfa = hasFiniteSimples B useDb checkAll dfa := by
+  rw [Bool.eq_iff_iff, hasFiniteSimples_iff, hasFiniteSimples_iff, special_act B hB g, hpin]
+
+/-- with an explicitly supplied automaton the pin half does not look at the basis, so the hypothesis
+    is void: the verdict is invariant under the eight symmetries outright -/
+theorem hasFiniteSimples_act_dfa (B : List NSeq) (hB : ∀ x ∈ B, IsPerm x) (g : D8) (useDb checkAll : Bool)
+    (d : DFA) :
+    hasFiniteSimples (B.map g.act) useDb checkAll (some d) = hasFiniteSimples B useDb checkAll (some d) :=
+  hasFiniteSimples_act B hB g useDb checkAll (some d) rfl
+example (d : DFA) : hasFiniteSimples ([[0, 1, 2], [1, 0]].map (⟨true, false, true⟩ : D8).act) false true (some d) =
+    hasFiniteSimples [[0, 1, 2], [1, 0]] false true (some d) :=
+  hasFiniteSimples_act_dfa _ (by decide) _ _ _ d
+
+/-- **the verdict depends only on the class, relative to the pin half**: two bases with the same
+    avoiders, on which the pin-sequence test agrees (hypothesis `hpin`), get the same verdict -/
+theorem hasFiniteSimples_class_only (B B' : List NSeq) (hB : ∀ x ∈ B, IsPerm x) (hB' : ∀ x ∈ B', IsPerm x)
+    (h : ∀ σ, IsPerm σ → ((∀ x ∈ B, ¬ Contains σ x) ↔ (∀ x ∈ B', ¬ Contains σ x)))
+    (useDb checkAll : Bool) (dfa : Option DFA)
+    (hpin : hasFinitePinpermsWith B useDb dfa = hasFinitePinpermsWith B' useDb dfa) :
+    hasFiniteSimples B useDb checkAll dfa = hasFiniteSimples B' useDb checkAll dfa := by
+  rw [Bool.eq_iff_iff, hasFiniteSimples_iff, hasFiniteSimples_iff, special_class_only B B' hB hB' h, hpin]
+example (d : DFA) : hasFiniteSimples [[0, 1]] false false (some d) = hasFiniteSimples [[0, 1], [0, 1]] false false (some d) := by
+  refine hasFiniteSimples_class_only _ _ (by decide) (by decide) ?_ _ _ _ rfl
+  intro σ _
+  simp
 
 end C16
